@@ -261,6 +261,7 @@ namespace pika::when_all_impl {
 
             void finish() noexcept
             {
+                PIKA_VERIF_POINT(129, this);
                 if (--predecessors_remaining == 0)
                 {
                     if (!set_stopped_error_called) { set_value_helper(ts); }
